@@ -55,3 +55,35 @@ Theorem C02_unreverse : forall g,
   (forall n, same_but_adj (gnode g' n) (gnode g n)).
 Proof. exact unreverse_edges_spec. Qed.
 Print Assumptions C02_unreverse.
+
+(* ---------- end to end (Proofs/E2E*.v, Whole*.v, NS*.v, Final.v): no premise besides hypotheses on the input ---------- *)
+From Autog Require Import Pipeline E2EBackbone E2EOutput WholeCrossings WholeOverlap WholeLayout Final.
+
+
+(* one connected component with at least two nodes, through the whole pipeline, for every combination of
+   {Greedy, DepthFirst} x {LongestPath, NetworkSimplex} x {VAlign, PackRight, SinkColoring} x {Straight, Polyline,
+   Ortho}. [component_input g] is what the front end produces (frontend_component_input): consistent, no helper
+   node, no layers yet, no edge reversed or routed, unit minimum lengths, connected.
+   [E1_statement g g'] (Proofs/E2EOutput.v): the final edge list is the non-self-loop edges of the input in order
+   followed by its self-loops in order; every input edge has its original ends and is not flagged reversed;
+   self-loops carry no points; the node list is the input's followed by helper nodes only, which are all beyond
+   the input arena and virtual; every input node is non-virtual and keeps its width and height. *)
+Theorem C02_component_end_to_end : forall o g g' x, component_input g -> options_ok o ->
+  layout_component o g = Ok (g', x) -> E1_statement g g'.
+Proof. exact G1_output_graph. Qed.
+Print Assumptions C02_component_end_to_end.
+
+(* the whole Layout as one function of the raw edge list (Model/Pipeline.v), any number of components incl.
+   single self-looped nodes, helper nodes not requested: the output lists every distinct input id exactly once,
+   each with its configured size (listed size, else fixed size, else zero), and the output edges read as pairs
+   of ids are the input pairs — same multiset, same directions *)
+Theorem C02_layout_output_is_the_input : forall (A : Type) (eqA : A -> A -> bool), (forall x y, eqA x y = true <-> x = y) ->
+  forall o fixed sizes es ids ns oes xs, options_ok o ->
+  layout A eqA o fixed sizes es = Ok (ids, (ns, oes, xs)) -> o_virtual o = false ->
+  NoDup ids /\ (forall x, In x ids <-> exists p, In p es /\ In x p) /\
+  Permutation (map on_id ns) (iota 0 (length ids)) /\
+  (forall a, In a ns -> exists x, nth_error ids (on_id a) = Some x /\
+                                  (on_w a, on_h a) = SizesProofs.size_of A eqA fixed sizes x (0, 0)%Q) /\
+  Permutation (map (id_pair A ids) oes) es.
+Proof. exact G7_layout_output. Qed.
+Print Assumptions C02_layout_output_is_the_input.
